@@ -3944,6 +3944,12 @@ impl<'a> CodeGenerator<'a> {
                         .get(&access_key)
                         .unwrap_or_else(|| panic!("unknown constant {module}.{name}"));
 
+                    // The constant is compiled as a program of its own in the middle of
+                    // the enclosing program's code generation. Its hoisting pass registers
+                    // its own cyclic functions (under names local to that pass), which must
+                    // not overwrite the ones the enclosing program still has to resolve.
+                    let outer_cyclic_functions = std::mem::take(&mut self.cyclic_functions);
+
                     let mut value =
                         AirTree::no_op(self.build(definition, &access_key.module_name, &[]));
 
@@ -3954,6 +3960,8 @@ impl<'a> CodeGenerator<'a> {
                     value = self.hoist_functions_to_validator(value);
 
                     let term = self.uplc_code_gen(value.to_vec());
+
+                    self.cyclic_functions = outer_cyclic_functions;
 
                     let mut program =
                         self.new_program(self.special_functions.apply_used_functions(term));
